@@ -58,7 +58,7 @@ def run(res, tier, seed):
     build_rva()
     root = os.path.join(WORK, "c18")
     shutil.rmtree(root, ignore_errors=True)
-    n = 20 if tier == "quick" else 250
+    n = 20 if tier == "quick" else 1200
     first = None
     stats = {"inputs": 0, "multi_file": 0, "cli_runs": 0, "diagnostics": 0, "with_parse_errors": 0,
              "with_cfg_errors": 0, "pretty_excerpts_checked": 0, "lib_vs_cli": 0}
